@@ -17,7 +17,7 @@ EFFECTFUL = {
     "send", "try_send", "blocking_send", "poll_recv", "recv", "try_recv", "close", "is_closed",
     "upgrade", "strong_count", "channel", "blocking_recv",
     "on_start", "poll_on_run", "on_run", "on_stop", "handle", "on_tell_result",
-    "drop", "lock", "fetch_add", "get", "set", "try_with", "insert", "remove_edge",
+    "drop", "lock", "fetch_add", "get", "set", "vx_drop_opt_guard", "drop__WaitForGuard",
     "vx_emit_dead_letter",
     # extracted, non-pure
     "handle_message", "vx_dyn__handle_message", "handle_message__PayloadHandler", "run_actor_lifecycle", "tell", "tell_with_timeout", "ask", "ask_with_timeout",
@@ -164,6 +164,7 @@ SPECS["dead_letter.rs::record"] = dict(record_emit=True, requires=[], ensures=[
 
 # ------------------------------------------------------------------ send side
 AMB = "same_ambient_but_dl(*old(w), *final(w))"
+AMB_BUT_GRAPH = "same_ambient_but_dl_graph(*old(w), *final(w))"
 SPECS["actor_ref.rs::ActorRef::tell"] = dict(ret="result", ensures=[
     C("tell.relation", "C01 C02 C09 C13", "r_tell::<M>(self.hv(), msg_id(msg), old(w).log(), final(w).log(), result, \"tell\"@)"),
     C("tell.frame", "C12", AMB),
@@ -197,21 +198,35 @@ SPECS["actor_ref.rs::ActorRef::tell_blocking"] = dict(ret="result", ensures=[
 ])
 
 
+# the wait-for lock is never held across an ask and never poisoned (no panic site is reachable while it is held: C12)
+ASK_PRE = [C("ask.pre.lock_free_and_unpoisoned", "C12", "!old(w).lock_held() && !old(w).poisoned()")]
+
+
+def _ask_t(features):
+    return dict(ret="result", requires=ASK_PRE, ensures=[
+        C("ask_with_timeout.relation", "C01 C03 C10 C13 C15",
+          "r_ask_timeout::<M, T::Reply>(self.hv(), msg_id(msg), timeout, *old(w), *final(w), result, \"ask\"@)"),
+        C("ask_with_timeout.frame", "C12", AMB_BUT_GRAPH if "deadlock-detection" in features else AMB),
+    ])
+
+
 def _ask(features):
     rel = "r_ask::<M, T::Reply>(self.hv(), msg_id(msg), *old(w), *final(w), result, \"ask\"@)"
     d = dict(ret="result", ensures=[
-        C("ask.relation", "C01 C02 C03 C13", rel),
-        C("ask.frame", "C12", AMB),
+        C("ask.relation", "C01 C02 C03 C13 C14 C15", rel),
+        C("ask.frame", "C12", AMB_BUT_GRAPH if "deadlock-detection" in features else AMB),
     ])
+    d["requires"] = ASK_PRE
+    if "deadlock-detection" in features:
+        d["raii"] = {"graph": "drop", "_guard": "vx_drop_opt_guard"}
+        d["proofs"] = [("drop(graph, w);",
+                        "proof { assert(caller.id == callee.id || chain_unanswered(graph@, callee.id, caller.id)); /*L:ask.deadlock_panic.requires_unanswered_chain*/ }",
+                        "before")]
     return d
 
 
 SPECS["actor_ref.rs::ActorRef::ask"] = _ask
-SPECS["actor_ref.rs::ActorRef::ask_with_timeout"] = dict(ret="result", ensures=[
-    C("ask_with_timeout.relation", "C01 C03 C10 C13",
-      "r_ask_timeout::<M, T::Reply>(self.hv(), msg_id(msg), timeout, *old(w), *final(w), result, \"ask\"@)"),
-    C("ask_with_timeout.frame", "C12", AMB),
-])
+SPECS["actor_ref.rs::ActorRef::ask_with_timeout"] = _ask_t
 SPECS["actor_ref.rs::ActorRef::blocking_ask_no_timeout"] = dict(ret="result", ensures=[
     C("blocking_ask_no_timeout.relation", "C17 C02 C03 C13",
       "r_ask_core::<M, T::Reply>(self.hv(), msg_id(msg), old(w).log(), final(w).log(), result, \"blocking_ask\"@)"),
@@ -227,7 +242,7 @@ SPECS["actor_ref.rs::ActorRef::ask_blocking"] = dict(ret="result", ensures=[
     C("ask_blocking.alias_ignores_timeout", "C17",
       "r_ask_core::<M, T::Reply>(self.hv(), msg_id(msg), old(w).log(), final(w).log(), result, \"blocking_ask\"@)"),
 ])
-SPECS["actor_ref.rs::ActorRef::ask_join"] = dict(ret="result", ensures=[
+SPECS["actor_ref.rs::ActorRef::ask_join"] = dict(ret="result", requires=ASK_PRE, ensures=[
     C("ask_join.awaits_the_handle_returned_by_ask", "C03", "r_ask_join::<M, R>(self.hv(), msg_id(msg), *old(w), *final(w), result)"),
 ])
 
@@ -307,8 +322,8 @@ def _erased():
     S["handler.rs::TellHandler::tell_with_timeout"] = dict(ensures=tellt)
     S["handler.rs::TellHandler::blocking_tell"] = dict(ensures=btell)
     S["handler.rs::TellHandler::as_control"] = dict(pure=True, ensures=same("erased.tell_handler.as_control.same_actor"))
-    S["handler.rs::AskHandler::ask"] = dict(ensures=ask)
-    S["handler.rs::AskHandler::ask_with_timeout"] = dict(ensures=askt)
+    S["handler.rs::AskHandler::ask"] = dict(requires=ASK_PRE, ensures=ask)
+    S["handler.rs::AskHandler::ask_with_timeout"] = dict(requires=ASK_PRE, ensures=askt)
     S["handler.rs::AskHandler::blocking_ask"] = dict(ensures=bask)
     S["handler.rs::AskHandler::as_control"] = dict(pure=True, ensures=same("erased.ask_handler.as_control.same_actor"))
     S["handler.rs::WeakTellHandler::as_weak_control"] = dict(pure=True, ensures=same("erased.weak_tell_handler.as_weak_control.same_actor"))
@@ -358,6 +373,63 @@ def _erased():
 SPECS.update(_erased())
 
 
+# ------------------------------------------------------------------ ActorResult accessor laws (for every T)
+def _ar():
+    K = "actor_result.rs::ActorResult::"
+    S = {}
+    def law(name, expr):
+        S[K + name] = dict(pure=True, ensures=[C("actor_result.%s.agrees_with_fields" % name, "C05", expr)])
+    law("is_completed", "r == (self is Completed)")
+    law("was_killed", "r == (match *self { ActorResult::Completed { killed, .. } => killed, ActorResult::Failed { killed, .. } => killed })")
+    law("stopped_normally", "r == (*self matches ActorResult::Completed { killed: false, .. })")
+    law("is_startup_failed", "r == (*self matches ActorResult::Failed { phase: FailurePhase::OnStart, .. })")
+    law("is_runtime_failed", "r == ((*self matches ActorResult::Failed { phase: FailurePhase::OnRun, .. }) || (*self matches ActorResult::Failed { phase: FailurePhase::OnRunThenOnStop, .. }))")
+    law("is_cleanup_failed", "r == (*self matches ActorResult::Failed { phase: FailurePhase::OnRunThenOnStop, .. })")
+    law("is_stop_failed", "r == (*self matches ActorResult::Failed { phase: FailurePhase::OnStop, .. })")
+    law("is_failed", "r == (self is Failed)")
+    law("actor", "match *self { ActorResult::Completed { actor, .. } => r == Some(&actor), ActorResult::Failed { actor: Some(a), .. } => r == Some(&a), ActorResult::Failed { actor: None, .. } => r is None }")
+    law("into_actor", "r == (match self { ActorResult::Completed { actor, .. } => Some(actor), ActorResult::Failed { actor, .. } => actor })")
+    law("error", "match *self { ActorResult::Completed { .. } => r is None, ActorResult::Failed { error, .. } => r == Some(&error) }")
+    law("into_error", "r == (match self { ActorResult::Completed { .. } => None, ActorResult::Failed { error, .. } => Some(error) })")
+    law("has_actor", "r == (match *self { ActorResult::Completed { .. } => true, ActorResult::Failed { actor, .. } => actor is Some })")
+    law("to_result", "r == (match self { ActorResult::Completed { actor, .. } => Ok::<T, T::Error>(actor), ActorResult::Failed { error, .. } => Err::<T, T::Error>(error) })")
+    S["actor_result.rs::From<ActorResult> for tuple::from"] = dict(pure=True, ensures=[
+        C("actor_result.from_tuple.agrees_with_fields", "C05",
+          "r == (match result { ActorResult::Completed { actor, .. } => (Some(actor), None::<T::Error>), ActorResult::Failed { actor, error, .. } => (actor, Some(error)) })")])
+    return S
+
+
+SPECS.update(_ar())
+
+
+# ------------------------------------------------------------------ deadlock detection
+SPECS["lib.rs::has_path"] = dict(pure=True,
+    ensures=[
+        C("has_path.sound_only_true_if_chain_exists", "C15", "r ==> reach(graph@, from, to)"),
+        C("has_path.complete_finds_every_chain", "C14", "reach(graph@, from, to) ==> r"),
+    ],
+    loops={"loop#1": dict(
+        invariant=[
+            C("has_path.inv.step_bound_is_graph_size", "C14", "max_steps == graph@.dom().len()"),
+            C("has_path.inv.current_is_ith_successor", "C14 C15", "walk(graph@, from, _vx_i as nat) == Some(current)"),
+            C("has_path.inv.target_not_met_so_far", "C14", "forall|j: nat| 1 <= j <= _vx_i ==> walk(graph@, from, j) != Some(to)"),
+        ],
+        after="proof { if reach(graph@, from, to) { lemma_reach_bounded(graph@, from, to); } }",
+    )},
+    proofs=[
+        ("return true;", "proof { assert(walk(graph@, from, (_vx_i + 1) as nat) == Some(to)); }", "before"),
+        ("None => return false", "None => { proof { assert(walk(graph@, from, (_vx_i + 1) as nat) is None); lemma_no_reach_after_none(graph@, from, to, _vx_i as nat); } return false }", "replace"),
+    ])
+SPECS["lib.rs::Drop for WaitForGuard::drop"] = dict(
+    raii={"graph": "drop"}, no_panic=True, by_value=True,
+    ensures=[
+        C("wait_for_guard.drop.removes_exactly_its_edge_and_unlocks", "C15 C12", "guard_removed(this.0, *old(w), *final(w))"),
+        C("wait_for_guard.drop.frame", "C12",
+          "final(w).current_actor() == old(w).current_actor() && final(w).poisoned() == old(w).poisoned() && final(w).mmon() == old(w).mmon() && final(w).cap_cell() == old(w).cap_cell() && final(w).id_floor() == old(w).id_floor() && final(w).chan_floor() == old(w).chan_floor() && final(w).dl_count() == old(w).dl_count() && final(w).own_strong() == old(w).own_strong()"),
+    ],
+    requires=[C("wait_for_guard.drop.pre.unlocked", "C12", "!old(w).lock_held()")])
+
+
 # ====================================================================== metadata used by ./check
 # feature sets (besides default) a property's quick check needs
 PROPERTY_FEATURES = {
@@ -369,6 +441,9 @@ PROPERTY_FEATURES = {
 # labels that live in shim/glue (preconditions of trusted primitives) -> properties they serve
 EXTRA_LABELS = {
     "handle_message.pre.scope@dyn": "C14",
+    "ask.deadlock_panic.requires_unanswered_chain": "C15",
+    "mutex.no_reentrant_lock": "C12 C14",
+    "drop_body.never_panics": "C12 C15",
     "handle_message.pre.unlocked@dyn": "C12",
     "spawn.lifecycle_gets_refs_mailbox": "C01 C02 C09",
     "spawn.lifecycle_gets_refs_control": "C06",
